@@ -36,6 +36,9 @@ type HistCheck struct {
 	// Final is called at the end of a legal history; it returns the problems found and an outcome class.
 	Final func(s *scn.Scn) (problems []*scn.Problem, outcome string, err error)
 
+	// ExtraCoverage is merged into the evidence's coverage map (checks with a second half, e.g. C16).
+	ExtraCoverage map[string]any
+
 	rep            *ev.Reporter
 	harnessErr     error
 	hmu            sync.Mutex
@@ -167,7 +170,9 @@ type LayerReport struct {
 // RunLayers executes all layers within the budget and writes evidence. Returns the exit code.
 func (hc *HistCheck) RunLayers(layers []Layer, budget time.Duration, assumptions []string, rule string) int {
 	t := ev.Start()
-	hc.rep = ev.NewReporter(hc.ID)
+	if hc.rep == nil {
+		hc.rep = ev.NewReporter(hc.ID)
+	}
 	deadline := time.Now().Add(budget)
 	total := &explore.Stats{Exhaustive: true, Outcomes: map[string]int{}}
 	var reports []LayerReport
@@ -221,6 +226,9 @@ func (hc *HistCheck) RunLayers(layers []Layer, budget time.Duration, assumptions
 			"known_finding_reproductions":   hc.rep.KnownCount(),
 			"top_outcomes":                  total.OutcomeList(12),
 		},
+	}
+	for k, v := range hc.ExtraCoverage {
+		e.Coverage[k] = v
 	}
 	if err := ev.Write(e); err != nil {
 		fmt.Fprintln(os.Stderr, "write evidence:", err)
